@@ -51,6 +51,17 @@ add("C20", "X", "model_checking",
     "Trusted: stateright search; the reference is the same Connection code run in isolation (this check is about routing/bookkeeping in Net, not about the connection logic); the application reacts to Connect events immediately.",
     "DESIGN.md 3/C20")
 
+add("C07", "E", "exploration",
+    "bounded exhaustive enumeration of compressor/decompressor inputs x output capacities x code tables, differential against the bundled C++ reference",
+    "Per code table (built-in, shipped file, 15 synthetic vectors): all inputs of length <=2, every length 0..4096 x 4 content classes, all decoder inputs of length <=2 (<=3 thorough) x every capacity between canaries, prefixes/extensions/substitutions of valid streams; round trip, exact predicted lengths, byte identity with the C++ reference, agreement whenever the reference decodes, capacity errors exactly when needed.",
+    "Trusted: the bundled C++ reference as linked by the repository's own dev-dependency; tables the constructor refuses (code depth > 24) are skipped.",
+    "DESIGN.md 3/C07")
+add("C08", "E", "exploration",
+    "exhaustive enumeration (all 2^32 integers; all short byte strings; thorough: all 2^36 five-byte encodings) against an independent reference codec; bounded exhaustive packer write sequences x capacities",
+    "Encoding decided for every 32-bit integer; decoding decided for every byte string of length <=3 and structured 4/5-byte strings (thorough: every 4-byte string and every 5-byte encoding) against a reference decoder written from doc/int.md, including canonical <=> warning-free; packer/unpacker sequences of <=3/4 fields into every capacity of three backing stores with read-back, truncation and poisoning.",
+    "Trusted: reference codec transcribed from doc/int.md.",
+    "DESIGN.md 3/C08")
+
 NOT_YET = {}
 
 def main():
